@@ -79,6 +79,12 @@ func newSubProcess(eventBuilder event.IDefinitionInstanceBuilder, idGenerator id
 			mch:                    make(chan imessage, len(parentWiring.incoming)*2+1),
 		}
 
+		// events handed to the enclosing process reach the sub-process's own consumers
+		err = parentWiring.eventEgress.RegisterEventConsumer(process)
+		if err != nil {
+			return
+		}
+
 		locator := parentWiring.locator
 		err = data.ElementToLocator(locator, idGenerator, subProcessElement)
 		if err != nil {
